@@ -63,6 +63,47 @@ CHECKS = {
         "write decoding to a masked FIN pong with the identical payload; no unsolicited writes; values returned equal the model.",
         "Trusted: refmodel decoder; transport accepts whole writes (short writes: C12).",
     ),
+    "C09": (
+        "fault_enumeration",
+        "Hypothesis grammar of response heads and redirect chains + enumeration of EOF/timeout faults at every byte offset, against a reference validity predicate and a resource-cleanup invariant",
+        "Response heads are generated from a grammar over status, Upgrade, Connection, Accept (computed from the key actually "
+        "sent on that socket), subprotocol, Location, header case/order; redirect chains of 0..5 hops run against redirect_limit "
+        "0..4 on the simulated network; EOF or a timeout is injected after every byte offset of six response chains. Success is "
+        "required exactly when the reference predicate holds; on failure the call must raise, stay unconnected and close every socket it opened.",
+        "Trusted: simulated socket module installed into websocket._http; reference predicate expected_handshake_ok. "
+        "Accept / subprotocol differing only in letter case are don't-care.",
+    ),
+    "C10": (
+        "exploration",
+        "Hypothesis-generated URL x option combinations; oracle = strict HTTP/1.1 request parser + component-derived expectations + os.urandom recorder + differential acceptance by websockets.ServerProtocol",
+        "The bytes written before the first read are captured on the simulated socket and must be exactly one write that parses "
+        "strictly and carries the target, Host, Upgrade, Connection, Version, a key that is the base64 of the 16 bytes drawn from "
+        "os.urandom for this request, and Origin/Host/subprotocols/cookie/custom headers exactly as the options specify.",
+        "Trusted: refmodel.parse_http_request; urlgen components; default Origin value is don't-care.",
+    ),
+    "C18": (
+        "exploration",
+        "Hypothesis-generated URLs from known components (the components are the oracle) + exhaustive enumeration of address outcome patterns up to length 4 on the simulated network",
+        "parse_url() and connect() are compared with the components the URL was built from; malformed URLs must raise ValueError "
+        "with no resolver/connect activity; every pattern over {accept, refused, unreachable, other errno} for 1..4 resolved "
+        "addresses x {ws, wss} is enumerated and the attempt order, fall-through, socket closing, timeout and socket options of every attempt are checked.",
+        "Trusted: simulated resolver/sockets; behaviour after an errno other than refused/unreachable is don't-care; SSL-dispatcher choice is observed in C13.",
+    ),
+    "C19": (
+        "exploration",
+        "exhaustive decision table over a small host / no_proxy alphabet with rotating option/environment sources + Hypothesis-generated CONNECT tunnels on the simulated network, against a reference exemption predicate",
+        "get_proxy_info() is evaluated for every (host, one-entry no_proxy list) over the alphabet and a reduced set of two-entry "
+        "lists (all CIDR prefix lengths 0..32, look-alike suffixes, apex/subdomain), rotating proxy and no_proxy sources; "
+        "tunnels check the dialled address, the exact CONNECT head incl. Basic credentials, the 200-only gate, TLS wrap position and name, and the origin-addressed GET.",
+        "Trusted: reference no_proxy_exempt; os.environ is mutated and restored inside each case; SOCKS proxies unreachable (python_socks absent).",
+    ),
+    "C20": (
+        "exploration",
+        "model-based testing over generated connection histories (Hypothesis list-of-steps with a CookieModel reference)",
+        "Histories of up to 12 handshakes with Set-Cookie responses (one Domain or none, dotted/undotted, mixed case) and targets "
+        "inside/outside/look-alike/subdomain are replayed against a dictionary model; the Cookie header of every request must equal the model's.",
+        "Trusted: CookieModel; same cookie name under two covering domains is don't-care (not judged, counted).",
+    ),
 }
 
 PENDING_REASON = "check not built yet in this work-in-progress commit (will be claimed once its generator/oracle is committed)"
